@@ -86,21 +86,34 @@ class Divis(object):
                 return ~c
         return None
 
+    def residue_of(self, e):
+        """x when ``e`` is the residue of x modulo k: ``x % k`` or, k being a
+        power of two, ``x & (k - 1)`` (either operand order); else None."""
+        k = self.k
+        if not isinstance(e, ast.BinOp):
+            return None
+        if isinstance(e.op, ast.Mod) and self.const_of(e.right) == k:
+            return e.left
+        if isinstance(e.op, ast.BitAnd) and k & (k - 1) == 0:
+            if self.const_of(e.right) == k - 1:
+                return e.left
+            if self.const_of(e.left) == k - 1:
+                return e.right
+        return None
+
     def _guard(self, n, state):
         e, pol = n.ast, n.polarity
-        k = self.k
         target = None
-        if isinstance(e, ast.BinOp) and isinstance(e.op, ast.Mod) and \
-                self.const_of(e.right) == k and not pol:
-            target = e.left
-        if isinstance(e, ast.Compare) and len(e.ops) == 1 and \
-                isinstance(e.left, ast.BinOp) and \
-                isinstance(e.left.op, ast.Mod) and \
-                self.const_of(e.left.right) == k and \
-                self.const_of(e.comparators[0]) == 0:
-            if (isinstance(e.ops[0], ast.Eq) and pol) or \
-                    (isinstance(e.ops[0], ast.NotEq) and not pol):
-                target = e.left.left
+        if self.residue_of(e) is not None and not pol:
+            target = self.residue_of(e)
+        if isinstance(e, ast.Compare) and len(e.ops) == 1:
+            l, r = e.left, e.comparators[0]
+            if self.residue_of(l) is None and self.residue_of(r) is not None:
+                l, r = r, l
+            if self.residue_of(l) is not None and self.const_of(r) == 0:
+                if (isinstance(e.ops[0], ast.Eq) and pol) or \
+                        (isinstance(e.ops[0], ast.NotEq) and not pol):
+                    target = self.residue_of(l)
         if target is not None and _key(target) is not None:
             return state | {_key(target)}
         return state
